@@ -20,6 +20,11 @@ def check(tier="quick", seed=0, workers=None, only=None):
         v = dict(v)
         v["oracle"] = "C12." + v["oracle"].split(".", 1)[1]
         viols.append(v)
+    # a multiplexed connection left ACTIVE for ever after all its callers returned, with nothing cancelled and no fault injected: a stream
+    # that ended (reset by the server) was never taken off the connection's books
+    for v in common.collect(st, ("C05",)):
+        if v["oracle"] == "C05.connection-stuck" and v["signature"].get("trigger") in (None, "none") and "HTTP/2" in str(v["signature"].get("stuck_proto")):
+            viols.append(dict(v, oracle="C12.connection-wedged", signature=dict(v["signature"], kind="connection-wedged")))
     cov = evidence.stats_coverage(
         st,
         rule=("per scenario (2-4 requests on one warm or cold HTTP/2 connection): all orders of peer events (HEADERS, DATA fragment, END_STREAM, RST_STREAM per stream; SETTINGS "
